@@ -775,11 +775,11 @@ theorem bsizeK_sound {B : ShapeK} {zi zj zk : SizeK} {a b c t1 t : Shape} (hB : 
 theorem whereInfo_sound {B : ShapeK} {o : SizeK} {t : Shape} (hB : B.γ t) (ho : o.γ (prod t))
     (hnk : B.isConst = false → ∀ n, o ≠ .known n) : (whereInfo B o).γ t := by
   refine ⟨hB, ?_⟩
-  have gen : B.isConst = false → (match o with | .known n => SizeK.known (3 * n) | .atMost n => .atMost (3 * n) | _ => .any).γ (prod t) := by
+  have gen : B.isConst = false → (match o with | .known n => SizeK.known n | .atMost n => .atMost n | _ => .any).γ (prod t) := by
     intro hc
     cases o with
-    | known n => exact absurd rfl (hnk hc n)
-    | atMost n => simp only [SizeK.γ] at ho ⊢; omega
+    | known n => exact ho
+    | atMost n => exact ho
     | any => trivial
     | knownB n b => trivial
   cases B with
@@ -814,22 +814,12 @@ theorem where_static_sound {i j k o : SInfo} {a b c t : Shape} (hi : i.γ a) (hj
 
 example : refBroadcast3 [2, 1] [2, 1] [3] = some [2, 3] := by decide
 example : transferWhere ⟨.const [2, 3], .known 6⟩ ⟨.const [2, 3], .known 6⟩ ⟨.clipped [2, 3], .atMost 6⟩
-    = some ⟨.clipped [2, 3], .atMost 18⟩ := by decide
+    = some ⟨.clipped [2, 3], .atMost 6⟩ := by decide
 
-/-- GENUINE DEFECT (known finding C11 where.tripled-fixed-size): condition and x of one element (fixed size 1), y of
-    fixed size 6 with a run-time shape: the view type reports fixed_size 18 = 6 + 6 + 6, every instance has 6 elements -/
-theorem where_counterexample :
-    let i : SInfo := ⟨.fixedDim 2, .known 1⟩
-    let k : SInfo := ⟨.fixedDim 2, .known 6⟩
-    i.γ [1, 1] ∧ k.γ [2, 3] ∧ refBroadcast3 [1, 1] [1, 1] [2, 3] = some [2, 3] ∧ whereTripled i i k = true ∧
-    transferWhere i i k = some ⟨.fixedDim 2, .known 18⟩ ∧ ¬ (⟨.fixedDim 2, .known 18⟩ : SInfo).γ [2, 3] := by decide
-
-/-- the same defect in the everyday form `where(cond, 1, 0)`: a fixed-size condition with a run-time shape and two number
-    literals (size type ct<1>): fixed_size 18 for a view of 6 elements -/
-theorem where_scalar_counterexample :
-    let i : SInfo := ⟨.fixedDim 2, .known 6⟩
-    i.γ [2, 3] ∧ scalarInfo.γ [] ∧ refBroadcast3 [2, 3] [] [] = some [2, 3] ∧ whereTripled i scalarInfo scalarInfo = true ∧
-    transferWhere i scalarInfo scalarInfo = some ⟨.fixedDim 2, .known 18⟩ ∧ ¬ (⟨.fixedDim 2, .known 18⟩ : SInfo).γ [2, 3] := by decide
+/-- (the former known finding C11.where-tripled-fixed-size is repaired: both witnesses are now sound) -/
+example : transferWhere ⟨.fixedDim 2, .known 1⟩ ⟨.fixedDim 2, .known 1⟩ ⟨.fixedDim 2, .known 6⟩ = some ⟨.fixedDim 2, .known 6⟩ ∧
+    transferWhere ⟨.fixedDim 2, .known 6⟩ scalarInfo scalarInfo = some ⟨.fixedDim 2, .known 6⟩ ∧
+    (⟨.fixedDim 2, .known 6⟩ : SInfo).γ [2, 3] := by decide
 
 /-- one view of `view::broadcast_arrays(p, q, r)` (number literals are operands with `scalarInfo` and shape `[]`):
     the size type `index::broadcast_size` derives from the operand sizes is sound for every operand order -/
